@@ -32,7 +32,9 @@ _M = {}
 
 
 def _expected(case, lines):
+    """-> (non-empty body lines and want comments in order, number of want blocks, statements that contain an empty line)"""
     execs, wants, seq, nw, prevlab = [], [], [], 0, None
+    by_sid = {}
     for (k, ind, sid), lab, t in zip(case['lines'], case['labels'], lines):
         if lab == 'text':
             continue
@@ -51,9 +53,13 @@ def _expected(case, lines):
         if sid and case['blocks'][sid - 1]['shape'] == 'star':
             continue
         execs.append(body.strip())
+        if sid:
+            by_sid.setdefault(sid, []).append(body.strip())
         if body.strip():
             seq.append(body.strip())
-    return seq, nw
+    # an empty line INSIDE a statement (a blank line of a triple-quoted string) is part of what the doctest executes
+    holed = [b for b in by_sid.values() if '' in b[1:-1]]
+    return seq, nw, holed
 
 
 def _docstring(chunks):
@@ -99,7 +105,7 @@ def _module_case(args):
         # a google block is a doctest even when it holds no code (its test function is then just `...`)
         for (c, l, e), (_, _, dis, code) in zip(rendered[:2], flags[:2]):
             if not dis:
-                exp.append(('f0', _expected(c, l) if code else (['...'], 0)))
+                exp.append(('f0', _expected(c, l) if code else (['...'], 0, [])))
         rest = rendered[2:]
         for i, (c, l, e) in enumerate(rest, 1):
             d = _docstring([ind(l)])
@@ -169,7 +175,7 @@ def _module_case(args):
             else:
                 olines = out.split('\n')
                 starts = sorted(n.lineno for n in funcs) + [len(olines) + 1]
-                for pos, (n, (key, (e_seq, e_nw))) in enumerate(zip(funcs, exp)):
+                for pos, (n, (key, (e_seq, e_nw, e_holed))) in enumerate(zip(funcs, exp)):
                     key = '%s#%d' % (key, pos)
                     nxt = min(x for x in starts if x > n.lineno)
                     body = olines[n.lineno:nxt - 1]      # comments after the last statement belong to the function too
@@ -190,6 +196,9 @@ def _module_case(args):
                             seq.append(l)
                     if seq != e_seq:
                         bad.append(('body_lines_and_want_comments[%s]' % key, e_seq, seq))
+                    for block in e_holed:
+                        if not any(body[a:a + len(block)] == block for a in range(len(body) - len(block) + 1)):
+                            bad.append(('statement_with_empty_line[%s]' % key, block, body))
                     if nmark != e_nw:
                         bad.append(('want_blocks[%s]' % key, e_nw, nmark))
     info = {'n': len(exp), 'layout': layout}
@@ -203,6 +212,8 @@ def _module_case(args):
 def run(tier):
     out = common.Outcome('C19', tier)
     parselib.self_check_templates()
+    # a triple-quoted string with an empty line inside: that line is part of the statement
+    parselib.EXTRA['ml3'] = [["x{k} = p({k}, '''{o}", "", "end{k}''')"]]
     b = BOUNDS[tier]
     out.rule = ('every docstring of <= %d building blocks over C19_Blocks in DocParse.tla (model-checked and replayed through the parser); '
                 '%d modules of 1..3 of those docstrings converted by the dump command' % (b['n'], b['modules']))
